@@ -31,5 +31,12 @@ finally:
     sh("git -C /repo checkout -- . ; git -C /repo reset -q")
     shutil.rmtree("/verif/evidence", ignore_errors=True)
     shutil.copytree("/verif/.cache/evidence-saved", "/verif/evidence")
-json.dump(res, open("/verif/seeded/regression.json", "w"), indent=1, sort_keys=True)
+if sys.argv[1:] and os.path.exists("/verif/seeded/regression.json"):
+    # a partial run updates the entries it ran and keeps the others
+    allres = json.load(open("/verif/seeded/regression.json"))
+    allres.update(res)
+    res_out = allres
+else:
+    res_out = res
+json.dump(res_out, open("/verif/seeded/regression.json", "w"), indent=1, sort_keys=True)
 print("missed:", [k for k, v in res.items() if v != "caught with failing input"])
